@@ -8,12 +8,28 @@ import NPModel.Refine.LabelOrder
 namespace NP
 variable {α β : Type}
 
-/-- a strict weak order: asymmetric and negatively transitive (e.g. `<` on numbers or strings) -/
-structure StrictWeak (lt : α → α → Bool) : Prop where
-  asymm : ∀ a b, lt a b = true → lt b a = false
-  negtrans : ∀ a b c, lt a b = false → lt b c = false → lt a c = false
+/-- a strict weak order on the values in `S`: asymmetric and negatively transitive (e.g. `<` on
+    numbers or strings) -/
+structure StrictWeakOn (S : α → Prop) (lt : α → α → Bool) : Prop where
+  asymm : ∀ a b, S a → S b → lt a b = true → lt b a = false
+  negtrans : ∀ a b c, S a → S b → S c → lt a b = false → lt b c = false → lt a c = false
 
-/-- a three-way comparison that behaves like the one of a total preorder -/
+/-- a strict weak order on all values -/
+abbrev StrictWeak (lt : α → α → Bool) : Prop := StrictWeakOn (fun _ => True) lt
+
+theorem StrictWeakOn.mono {S T : α → Prop} {lt : α → α → Bool} (h : StrictWeakOn T lt) (hst : ∀ a, S a → T a) :
+    StrictWeakOn S lt :=
+  ⟨fun a b ha hb => h.asymm a b (hst a ha) (hst b hb),
+   fun a b c ha hb hc => h.negtrans a b c (hst a ha) (hst b hb) (hst c hc)⟩
+
+/-- a three-way comparison that behaves on `S` like the one of a total preorder -/
+structure CmpLawsOn (S : α → Prop) (cmp : α → α → Ordering) : Prop where
+  swap : ∀ a b, S a → S b → cmp b a = (cmp a b).swap
+  lt_le : ∀ a b c, S a → S b → S c → cmp a b = .lt → cmp b c ≠ .gt → cmp a c = .lt
+  le_lt : ∀ a b c, S a → S b → S c → cmp a b ≠ .gt → cmp b c = .lt → cmp a c = .lt
+  eq_eq : ∀ a b c, S a → S b → S c → cmp a b = .eq → cmp b c = .eq → cmp a c = .eq
+
+/-- … everywhere -/
 structure CmpLaws (cmp : α → α → Ordering) : Prop where
   swap : ∀ a b, cmp b a = (cmp a b).swap
   lt_le : ∀ a b c, cmp a b = .lt → cmp b c ≠ .gt → cmp a c = .lt
@@ -23,18 +39,18 @@ structure CmpLaws (cmp : α → α → Ordering) : Prop where
 /-- the comparison a strict order induces -/
 def cmp0 (lt : α → α → Bool) (a b : α) : Ordering := if lt a b then .lt else if lt b a then .gt else .eq
 
-theorem cmp0_laws (lt : α → α → Bool) (h : StrictWeak lt) : CmpLaws (cmp0 lt) := by
+theorem cmp0_laws (S : α → Prop) (lt : α → α → Bool) (h : StrictWeakOn S lt) : CmpLawsOn S (cmp0 lt) := by
   constructor
-  · intro a b
-    have := h.asymm a b; have := h.asymm b a
+  · intro a b sa sb
+    have := h.asymm a b sa sb; have := h.asymm b a sb sa
     unfold cmp0
     cases hab : lt a b <;> cases hba : lt b a <;> simp_all [Ordering.swap]
   all_goals
-    intro a b c
-    have := h.asymm a b; have := h.asymm b a; have := h.asymm b c; have := h.asymm c b
-    have := h.asymm a c; have := h.asymm c a
-    have := h.negtrans a b c; have := h.negtrans c b a; have := h.negtrans b a c
-    have := h.negtrans a c b; have := h.negtrans b c a; have := h.negtrans c a b
+    intro a b c sa sb sc
+    have := h.asymm a b sa sb; have := h.asymm b a sb sa; have := h.asymm b c sb sc; have := h.asymm c b sc sb
+    have := h.asymm a c sa sc; have := h.asymm c a sc sa
+    have := h.negtrans a b c sa sb sc; have := h.negtrans c b a sc sb sa; have := h.negtrans b a c sb sa sc
+    have := h.negtrans a c b sa sc sb; have := h.negtrans b c a sb sc sa; have := h.negtrans c a b sc sa sb
     unfold cmp0
     cases hab : lt a b <;> cases hba : lt b a <;> cases hbc : lt b c <;> cases hcb : lt c b <;>
       cases hac : lt a c <;> cases hca : lt c a <;> simp_all
@@ -42,30 +58,31 @@ theorem cmp0_laws (lt : α → α → Bool) (h : StrictWeak lt) : CmpLaws (cmp0 
 /-- ascending or descending -/
 def dirCmp (asc : Bool) (cmp : α → α → Ordering) (a b : α) : Ordering := if asc then cmp a b else (cmp a b).swap
 
-theorem dirCmp_laws (asc : Bool) (cmp : α → α → Ordering) (h : CmpLaws cmp) : CmpLaws (dirCmp asc cmp) := by
+theorem dirCmp_laws (S : α → Prop) (asc : Bool) (cmp : α → α → Ordering) (h : CmpLawsOn S cmp) :
+    CmpLawsOn S (dirCmp asc cmp) := by
   cases asc
   · constructor
-    · intro a b
-      simp only [dirCmp, Bool.false_eq_true, if_false, h.swap a b]
-    · intro a b c h1 h2
+    · intro a b sa sb
+      simp only [dirCmp, Bool.false_eq_true, if_false, h.swap a b sa sb]
+    · intro a b c sa sb sc h1 h2
       simp only [dirCmp, Bool.false_eq_true, if_false] at *
-      have e1 := h.swap a b; have e2 := h.swap b c; have e3 := h.swap a c
-      have := h.le_lt c b a
+      have e1 := h.swap a b sa sb; have e2 := h.swap b c sb sc; have e3 := h.swap a c sa sc
+      have := h.le_lt c b a sc sb sa
       cases hab : cmp a b <;> cases hbc : cmp b c <;> cases hac : cmp a c <;> simp_all [Ordering.swap]
-    · intro a b c h1 h2
+    · intro a b c sa sb sc h1 h2
       simp only [dirCmp, Bool.false_eq_true, if_false] at *
-      have e1 := h.swap a b; have e2 := h.swap b c; have e3 := h.swap a c
-      have := h.lt_le c b a
+      have e1 := h.swap a b sa sb; have e2 := h.swap b c sb sc; have e3 := h.swap a c sa sc
+      have := h.lt_le c b a sc sb sa
       cases hab : cmp a b <;> cases hbc : cmp b c <;> cases hac : cmp a c <;> simp_all [Ordering.swap]
-    · intro a b c h1 h2
+    · intro a b c sa sb sc h1 h2
       simp only [dirCmp, Bool.false_eq_true, if_false] at *
-      have := h.eq_eq a b c
+      have := h.eq_eq a b c sa sb sc
       cases hab : cmp a b <;> cases hbc : cmp b c <;> cases hac : cmp a c <;> simp_all [Ordering.swap]
   · constructor
-    · intro a b; simp only [dirCmp, if_true, h.swap a b]
-    · intro a b c; simp only [dirCmp, if_true]; exact h.lt_le a b c
-    · intro a b c; simp only [dirCmp, if_true]; exact h.le_lt a b c
-    · intro a b c; simp only [dirCmp, if_true]; exact h.eq_eq a b c
+    · intro a b sa sb; simp only [dirCmp, if_true, h.swap a b sa sb]
+    · intro a b c sa sb sc; simp only [dirCmp, if_true]; exact h.lt_le a b c sa sb sc
+    · intro a b c sa sb sc; simp only [dirCmp, if_true]; exact h.le_lt a b c sa sb sc
+    · intro a b c sa sb sc; simp only [dirCmp, if_true]; exact h.eq_eq a b c sa sb sc
 
 /-- nulls first or last, whatever the direction -/
 def nullCmp (isNull : α → Bool) (naFirst : Bool) (cmp : α → α → Ordering) (a b : α) : Ordering :=
@@ -75,41 +92,50 @@ def nullCmp (isNull : α → Bool) (naFirst : Bool) (cmp : α → α → Orderin
   | false, true => if naFirst then .gt else .lt
   | false, false => cmp a b
 
-theorem nullCmp_laws (isNull : α → Bool) (naFirst : Bool) (cmp : α → α → Ordering) (h : CmpLaws cmp) :
-    CmpLaws (nullCmp isNull naFirst cmp) := by
+theorem nullCmp_laws (S : α → Prop) (isNull : α → Bool) (naFirst : Bool) (cmp : α → α → Ordering)
+    (h : CmpLawsOn (fun a => S a ∧ isNull a = false) cmp) : CmpLawsOn S (nullCmp isNull naFirst cmp) := by
   constructor
-  · intro a b
-    have := h.swap a b
+  · intro a b sa sb
+    have := fun h1 h2 => h.swap a b ⟨sa, h1⟩ ⟨sb, h2⟩
     unfold nullCmp
-    cases isNull a <;> cases isNull b <;> cases naFirst <;> simp_all [Ordering.swap]
-  · intro a b c
-    have := h.lt_le a b c
+    cases ha : isNull a <;> cases hb : isNull b <;> cases naFirst <;> simp_all [Ordering.swap]
+  · intro a b c sa sb sc
+    have := fun h1 h2 h3 => h.lt_le a b c ⟨sa, h1⟩ ⟨sb, h2⟩ ⟨sc, h3⟩
     unfold nullCmp
-    cases isNull a <;> cases isNull b <;> cases isNull c <;> cases naFirst <;> simp_all
-  · intro a b c
-    have := h.le_lt a b c
+    cases ha : isNull a <;> cases hb : isNull b <;> cases hc : isNull c <;> cases naFirst <;> simp_all
+  · intro a b c sa sb sc
+    have := fun h1 h2 h3 => h.le_lt a b c ⟨sa, h1⟩ ⟨sb, h2⟩ ⟨sc, h3⟩
     unfold nullCmp
-    cases isNull a <;> cases isNull b <;> cases isNull c <;> cases naFirst <;> simp_all
-  · intro a b c
-    have := h.eq_eq a b c
+    cases ha : isNull a <;> cases hb : isNull b <;> cases hc : isNull c <;> cases naFirst <;> simp_all
+  · intro a b c sa sb sc
+    have := fun h1 h2 h3 => h.eq_eq a b c ⟨sa, h1⟩ ⟨sb, h2⟩ ⟨sc, h3⟩
     unfold nullCmp
-    cases isNull a <;> cases isNull b <;> cases isNull c <;> cases naFirst <;> simp_all
+    cases ha : isNull a <;> cases hb : isNull b <;> cases hc : isNull c <;> cases naFirst <;> simp_all
 
 theorem keyLe_eq (lt : α → α → Bool) (isNull : α → Bool) (asc naFirst : Bool) (a b : α) :
     keyLe lt isNull asc naFirst a b = nullCmp isNull naFirst (dirCmp asc (cmp0 lt)) a b := by
   unfold keyLe nullCmp dirCmp cmp0
   cases isNull a <;> cases isNull b <;> cases asc <;> cases lt a b <;> cases lt b a <;> simp [Ordering.swap]
 
-theorem keyLe_laws (lt : α → α → Bool) (isNull : α → Bool) (asc naFirst : Bool) (h : StrictWeak lt) :
-    CmpLaws (keyLe lt isNull asc naFirst) := by
+theorem keyLe_laws (S : α → Prop) (lt : α → α → Bool) (isNull : α → Bool) (asc naFirst : Bool)
+    (h : StrictWeakOn (fun a => S a ∧ isNull a = false) lt) : CmpLawsOn S (keyLe lt isNull asc naFirst) := by
   have : keyLe lt isNull asc naFirst = nullCmp isNull naFirst (dirCmp asc (cmp0 lt)) := by
     funext a b; exact keyLe_eq lt isNull asc naFirst a b
   rw [this]
-  exact nullCmp_laws _ _ _ (dirCmp_laws _ _ (cmp0_laws lt h))
+  exact nullCmp_laws S _ _ _ (dirCmp_laws _ _ _ (cmp0_laws _ lt h))
 
-/-- a comparison of values read through positions -/
+/-- a comparison of values read through positions that all land in `S` -/
+theorem CmpLawsOn.comap {S : α → Prop} {cmp : α → α → Ordering} (h : CmpLawsOn S cmp) (f : β → α)
+    (hf : ∀ i, S (f i)) : CmpLaws fun i j => cmp (f i) (f j) :=
+  ⟨fun a b => h.swap _ _ (hf a) (hf b), fun a b c => h.lt_le _ _ _ (hf a) (hf b) (hf c),
+   fun a b c => h.le_lt _ _ _ (hf a) (hf b) (hf c), fun a b c => h.eq_eq _ _ _ (hf a) (hf b) (hf c)⟩
+
 theorem CmpLaws.comap {cmp : α → α → Ordering} (h : CmpLaws cmp) (f : β → α) : CmpLaws fun i j => cmp (f i) (f j) :=
   ⟨fun a b => h.swap _ _, fun a b c => h.lt_le _ _ _, fun a b c => h.le_lt _ _ _, fun a b c => h.eq_eq _ _ _⟩
+
+theorem CmpLawsOn.global {cmp : α → α → Ordering} (h : CmpLawsOn (fun _ => True) cmp) : CmpLaws cmp :=
+  ⟨fun a b => h.swap a b trivial trivial, fun a b c => h.lt_le a b c trivial trivial trivial,
+   fun a b c => h.le_lt a b c trivial trivial trivial, fun a b c => h.eq_eq a b c trivial trivial trivial⟩
 
 /-- first `c1`, ties broken by `c2` -/
 def lexCombine (c1 c2 : β → β → Ordering) (i j : β) : Ordering :=
@@ -162,11 +188,31 @@ def keysCmp [Inhabited α] (lt : α → α → Bool) (isNull : α → Bool) (naF
   | k :: ks => lexCombine (fun i j => keyLe lt isNull k.1 naFirst (k.2.getD i default) (k.2.getD j default))
       (keysCmp lt isNull naFirst ks)
 
-theorem keysCmp_laws [Inhabited α] (lt : α → α → Bool) (isNull : α → Bool) (naFirst : Bool) (h : StrictWeak lt) :
-    ∀ kcols : List (Bool × List α), CmpLaws (keysCmp lt isNull naFirst kcols)
-  | [] => ⟨fun _ _ => rfl, fun _ _ _ h1 _ => (by cases h1), fun _ _ _ _ h2 => (by cases h2), fun _ _ _ _ _ => rfl⟩
-  | k :: ks => lexCombine_laws _ _ ((keyLe_laws lt isNull k.1 naFirst h).comap fun i => k.2.getD i default)
-      (keysCmp_laws lt isNull naFirst h ks)
+/-- the cells a key column can show: its values, and the default read beyond its end -/
+def colDomain [Inhabited α] (v : List α) : α → Prop := fun x => x ∈ v ∨ x = default
+
+theorem getD_colDomain [Inhabited α] (v : List α) (i : Nat) : colDomain v (v.getD i default) := by
+  unfold colDomain
+  rw [List.getD_eq_getElem?_getD]
+  cases h : v[i]? with
+  | none => right; rfl
+  | some x => left; exact List.mem_of_getElem? h
+
+/-- the non-null values of every key column are strictly weakly ordered by `lt` (nulls never
+    reach `lt`: they are placed by `na_position`) -/
+def KeysOrdered [Inhabited α] (lt : α → α → Bool) (isNull : α → Bool) (kcols : List (Bool × List α)) : Prop :=
+  ∀ k ∈ kcols, StrictWeakOn (fun v => colDomain k.2 v ∧ isNull v = false) lt
+
+theorem KeysOrdered.of_global [Inhabited α] {lt : α → α → Bool} (h : StrictWeak lt) (isNull : α → Bool)
+    (kcols : List (Bool × List α)) : KeysOrdered lt isNull kcols := fun _ _ => h.mono (fun _ _ => trivial)
+
+theorem keysCmp_laws [Inhabited α] (lt : α → α → Bool) (isNull : α → Bool) (naFirst : Bool) :
+    ∀ kcols : List (Bool × List α), KeysOrdered lt isNull kcols → CmpLaws (keysCmp lt isNull naFirst kcols)
+  | [], _ => ⟨fun _ _ => rfl, fun _ _ _ h1 _ => (by cases h1), fun _ _ _ _ h2 => (by cases h2), fun _ _ _ _ _ => rfl⟩
+  | k :: ks, h => lexCombine_laws _ _
+      ((keyLe_laws (colDomain k.2) lt isNull k.1 naFirst (h k List.mem_cons_self)).comap
+        (fun i => k.2.getD i default) (getD_colDomain k.2))
+      (keysCmp_laws lt isNull naFirst ks (fun k' hk' => h k' (List.mem_cons_of_mem _ hk')))
 
 theorem lexLe_eq [Inhabited α] (lt : α → α → Bool) (isNull : α → Bool) (naFirst : Bool) (i j : Nat) :
     ∀ kcols : List (Bool × List α),
@@ -198,13 +244,13 @@ theorem labelLt_false (a b : Label) (h : labelLt a b = false) : b.le a = true :=
 
 theorem labelLt_strictWeak : StrictWeak labelLt := by
   constructor
-  · intro a b h
+  · intro a b _ _ h
     unfold labelLt at h ⊢
     have ⟨h1, h2⟩ : a.le b = true ∧ a ≠ b := by simpa using h
     cases hba : b.le a
     · rfl
     · exact absurd (Label.le_antisymm a b h1 hba) h2
-  · intro a b c h1 h2
+  · intro a b c _ _ _ h1 h2
     have hba := labelLt_false a b h1
     have hcb := labelLt_false b c h2
     have hca := Label.le_trans c b a hcb hba
@@ -225,16 +271,17 @@ theorem labelCmp_eq (a b : Label) : labelCmp a b = cmp0 labelLt a b := by
 theorem labelCmp_laws : CmpLaws labelCmp := by
   have : labelCmp = cmp0 labelLt := by funext a b; exact labelCmp_eq a b
   rw [this]
-  exact cmp0_laws labelLt labelLt_strictWeak
+  exact (cmp0_laws _ labelLt labelLt_strictWeak).global
 
 /-- the whole comparator: row ordinal first, then the keys -/
 def sortCmp [Inhabited α] (lt : α → α → Bool) (isNull : α → Bool) (naFirst : Bool) (ords : List Label)
     (kcols : List (Bool × List α)) : Nat → Nat → Ordering :=
   lexCombine (fun i j => labelCmp (ords.getD i (.int 0)) (ords.getD j (.int 0))) (keysCmp lt isNull naFirst kcols)
 
-theorem sortCmp_laws [Inhabited α] (lt : α → α → Bool) (isNull : α → Bool) (naFirst : Bool) (h : StrictWeak lt)
-    (ords : List Label) (kcols : List (Bool × List α)) : CmpLaws (sortCmp lt isNull naFirst ords kcols) :=
-  lexCombine_laws _ _ (labelCmp_laws.comap fun i => ords.getD i (.int 0)) (keysCmp_laws lt isNull naFirst h kcols)
+theorem sortCmp_laws [Inhabited α] (lt : α → α → Bool) (isNull : α → Bool) (naFirst : Bool)
+    (ords : List Label) (kcols : List (Bool × List α)) (h : KeysOrdered lt isNull kcols) :
+    CmpLaws (sortCmp lt isNull naFirst ords kcols) :=
+  lexCombine_laws _ _ (labelCmp_laws.comap fun i => ords.getD i (.int 0)) (keysCmp_laws lt isNull naFirst kcols h)
 
 theorem sortLe_eq [Inhabited α] (lt : α → α → Bool) (isNull : α → Bool) (naFirst : Bool) (ords : List Label)
     (kcols : List (Bool × List α)) (i j : Nat) :
@@ -247,18 +294,18 @@ theorem sortLe_eq [Inhabited α] (lt : α → α → Bool) (isNull : α → Bool
     cases (ords.getD i (.int 0)).le (ords.getD j (.int 0)) <;> simp
 
 /-- **the comparator is a total preorder**: total and transitive -/
-theorem sortLe_total [Inhabited α] (lt : α → α → Bool) (isNull : α → Bool) (naFirst : Bool) (h : StrictWeak lt)
-    (ords : List Label) (kcols : List (Bool × List α)) (a b : Nat) :
+theorem sortLe_total [Inhabited α] (lt : α → α → Bool) (isNull : α → Bool) (naFirst : Bool)
+    (ords : List Label) (kcols : List (Bool × List α)) (h : KeysOrdered lt isNull kcols) (a b : Nat) :
     (sortLe lt isNull naFirst ords kcols a b || sortLe lt isNull naFirst ords kcols b a) = true := by
   rw [sortLe_eq, sortLe_eq]
-  exact (sortCmp_laws lt isNull naFirst h ords kcols).le_total a b
+  exact (sortCmp_laws lt isNull naFirst ords kcols h).le_total a b
 
-theorem sortLe_trans [Inhabited α] (lt : α → α → Bool) (isNull : α → Bool) (naFirst : Bool) (h : StrictWeak lt)
-    (ords : List Label) (kcols : List (Bool × List α)) (a b c : Nat)
+theorem sortLe_trans [Inhabited α] (lt : α → α → Bool) (isNull : α → Bool) (naFirst : Bool)
+    (ords : List Label) (kcols : List (Bool × List α)) (h : KeysOrdered lt isNull kcols) (a b c : Nat)
     (h1 : sortLe lt isNull naFirst ords kcols a b = true) (h2 : sortLe lt isNull naFirst ords kcols b c = true) :
     sortLe lt isNull naFirst ords kcols a c = true := by
   rw [sortLe_eq] at h1 h2 ⊢
-  exact (sortCmp_laws lt isNull naFirst h ords kcols).le_trans a b c h1 h2
+  exact (sortCmp_laws lt isNull naFirst ords kcols h).le_trans a b c h1 h2
 
 /-- sorted by the comparator ⇒ ordinals non-decreasing -/
 theorem sortLe_ordinal [Inhabited α] (lt : α → α → Bool) (isNull : α → Bool) (naFirst : Bool)
